@@ -292,90 +292,60 @@ def rule_all_resolved(ctx):
 
 def rule_reply_shape(ctx):
     R = "reply-shape"
-    ctx.rep.rule(R, "for every ProduceRequest version the builder can select, the branch of handle_response that version falls into "
-                    "unpacks exactly the fields of ProduceResponse_vN's partition entry, by position (partition, error_code, offset, "
-                    "timestamp, log_start_offset)")
+    ctx.rep.rule(R, "symbolic evaluation of handle_response for every ProduceRequest version the builder can select, against "
+                    "ProduceResponse_vN's schema: batch.done() receives that partition entry's offset, its timestamp (the CreateTime marker "
+                    "-1 when the version has none) and its log_start_offset (None when the version has none); the batch is looked up under "
+                    "(topic, partition) of that entry; the error class comes from that entry's error_code; no unpack arity mismatch")
+    from ..symeval import Const, Field, SymEval, Tup, Unk, make_struct
     pt = ProtoTable(ctx.repo)
-    b = [x for x in pt.builders() if x.name == "ProduceRequest"]
-    b = ctx.one(b, "ProduceRequest builder")
+    b = ctx.one([x for x in pt.builders() if x.name == "ProduceRequest"], "ProduceRequest builder")
     fh = ctx.fn(f"{HANDLER}.handle_response")
-    c = ctx.cfg(fh)
-    unpacks = [n for n in c.nodes if n.kind == "stmt" and isinstance(n.ast, ast.Assign) and isinstance(n.ast.targets[0], ast.Tuple)
-               and isinstance(n.ast.value, ast.Name) and n.ast.value.id == "partition_info"]
-    ctx.floor(unpacks, 3, "partition_info unpack sites")
-    vtests = [t for t in c.nodes if t.kind == "test" and "API_VERSION" in unparse(t.ast)]
-    versions = []
-    for rc in pt.builder_classes(b):
+    rparam = fh.params()[1]
+    classes = pt.builder_classes(b)
+    ctx.floor(classes, 8, "selectable ProduceRequest versions")
+    for rc in classes:
         v = pt.const(rc, "API_VERSION")
         resp = pt.response_type(rc)
         ctx.anchor(resp is not None, f"RESPONSE_TYPE of {rc.name}")
-        versions.append((v, rc, resp))
-    for v, rc, resp in versions:
         sch = pt.schema(resp)
         part = elem_schema(find_field(sch, ["topics", "partitions"]))
         ctx.anchor(part is not None and part[0] == "schema", f"{resp.name} topics/partitions schema")
         names = [n for n, _ in part[1]]
-        # which unpack does version v reach?
-        reached = []
-        for u in unpacks:
-            feas = True
-            for t in vtests:
-                tv = _eval_version_test(t.ast, v)
-                if tv is None:
-                    continue
-                if c.dominated_by_branch(t, "T", u) and tv is False:
-                    feas = False
-                if c.dominated_by_branch(t, "F", u) and tv is True:
-                    feas = False
-            if feas:
-                reached.append(u)
+        se = SymEval(interest=lambda c: c.endswith(".done") or c.endswith(".get") or c == "TopicPartition" or c.endswith("for_code") or c == "<unpack-mismatch>")
+        paths = se.run_function(fh.node, {rparam: make_struct(sch, pt.const(resp, "API_VERSION"), resp.name), "self": Unk("self")})
         site = f"{fh.path}:{fh.node.lineno} {fh.qualname}"
-        ok1 = len(reached) == 1
-        ctx.rep.ob(R, site, f"{fh.qualname}|v{v}-branch", ok1, f"ProduceResponse v{v} reaches {len(reached)} unpack sites")
-        if not ok1:
-            continue
-        tg = [unparse(x) for x in reached[0].ast.targets[0].elts]
-        ok2 = len(tg) == len(names)
-        ctx.rep.ob(R, f"{fh.path}:{reached[0].lineno} {fh.qualname}", f"{fh.qualname}|v{v}-arity", ok2,
-                   f"v{v}: unpack into {len(tg)} names {tg} but {resp.name} partition entry has {len(names)} fields {names}")
-        if ok2:
-            want = {"partition": "partition", "error_code": "error_code", "offset": "offset", "timestamp": "timestamp", "log_start_offset": "log_start_offset"}
-            okp = all(tg[i] == want[n] for i, n in enumerate(names) if n in want)
-            # names not in schema must not be taken from the tuple
-            ctx.rep.ob(R, f"{fh.path}:{reached[0].lineno} {fh.qualname}", f"{fh.qualname}|v{v}-positions", okp,
-                       f"v{v}: targets {tg} do not line up with schema fields {names}")
-        if "timestamp" not in names:
-            d = [s for s in c.nodes if s.kind == "store" and isinstance(s.ast, ast.Name) and s.ast.id == "timestamp"
-                 and not isinstance(s.stmt.targets[0], ast.Tuple) and c.dominates(reached[0], s) is False]
-            tsd = [s for s in local_defs(c, "timestamp") if isinstance(s.stmt, ast.Assign) and const_value(s.stmt.value) == -1]
-            okd = any(_same_branch(c, reached[0], s) for s in tsd)
-            ctx.rep.ob(R, site, f"{fh.qualname}|v{v}-no-timestamp", okd, f"v{v} has no broker timestamp: the CreateTime marker -1 must be used")
+        base = "topics[].partitions[]."
+        want_ts = Field(base + "timestamp") if "timestamp" in names else Const(-1)
+        want_lso = Field(base + "log_start_offset") if "log_start_offset" in names else Const(None)
+        dones, mism, tps, codes = [], [], [], []
+        for p in paths:
+            for e in p.events:
+                if e.callee.endswith(".done"):
+                    dones.append(e)
+                elif e.callee == "<unpack-mismatch>":
+                    mism.append(e)
+                elif e.callee == "TopicPartition":
+                    tps.append(e)
+                elif e.callee.endswith("for_code"):
+                    codes.append(e)
+        ctx.rep.ob(R, site, f"{fh.qualname}|v{v}-unpack", not mism, f"v{v}: unpacking {mism[0].args[0] if mism else ''} names from a partition entry of {len(names)} fields {names}")
+        ctx.rep.ob(R, site, f"{fh.qualname}|v{v}-done-reached", bool(dones), f"v{v}: no path reaches batch.done()")
+        def arg(e, i, kw):
+            if i < len(e.args):
+                return e.args[i]
+            return e.kwargs.get(kw, Const(None))
+        for e in dones:
+            ok = arg(e, 0, "base_offset") == Field(base + "offset")
+            ctx.rep.ob(R, site, f"{fh.qualname}|v{v}-offset", ok, f"v{v}: batch.done() base offset is {arg(e, 0, 'base_offset')!r}, not the entry's offset")
+            ok = arg(e, 1, "timestamp") == want_ts
+            ctx.rep.ob(R, site, f"{fh.qualname}|v{v}-timestamp", ok, f"v{v}: batch.done() timestamp is {arg(e, 1, 'timestamp')!r}, expected {want_ts!r}")
+            ok = arg(e, 2, "log_start_offset") == want_lso
+            ctx.rep.ob(R, site, f"{fh.qualname}|v{v}-lso", ok, f"v{v}: batch.done() log_start_offset is {arg(e, 2, 'log_start_offset')!r}, expected {want_lso!r}")
+        ctx.rep.ob(R, site, f"{fh.qualname}|v{v}-tp", bool(tps) and all(len(e.args) == 2 and e.args[0] == Field("topics[].topic") and e.args[1] == Field(base + "partition") for e in tps),
+                   f"v{v}: batch looked up under {tps[0].args if tps else None}")
+        ctx.rep.ob(R, site, f"{fh.qualname}|v{v}-error-code", bool(codes) and all(e.args and e.args[0] == Field(base + "error_code") for e in codes),
+                   f"v{v}: error class derived from {codes[0].args if codes else None}")
 
-
-def _same_branch(c, a, b):
-    return a.within == b.within
-
-
-def _eval_version_test(e, v):
-    """Evaluate a comparison chain over `<x>.API_VERSION` for version v (None if not about versions)."""
-    if not isinstance(e, ast.Compare):
-        return None
-    vals = []
-    for x in [e.left] + list(e.comparators):
-        if isinstance(x, ast.Attribute) and x.attr == "API_VERSION":
-            vals.append(v)
-        elif const_value(x) is not None:
-            vals.append(const_value(x))
-        else:
-            return None
-    res = True
-    for i, op in enumerate(e.ops):
-        a, b = vals[i], vals[i + 1]
-        r = {ast.Lt: a < b, ast.LtE: a <= b, ast.Gt: a > b, ast.GtE: a >= b, ast.Eq: a == b, ast.NotEq: a != b}.get(type(op))
-        if r is None:
-            return None
-        res = res and r
-    return res
 
 
 def rule_flush(ctx):
